@@ -16,9 +16,10 @@ Lemma write_all_loop_spec (fuel : nat) : forall w buf, length (sched w) + length
 Proof.
   induction fuel as [|f IH]; intros w buf Hm; [lia|].
   destruct buf as [|b0 r0].
-  { exists [], []. cbn [write_all_loop fst snd]. unfold wr_ok. rewrite app_nil_r. auto. }
-  cbn [write_all_loop]. set (buf := b0 :: r0) in *.
-  assert (Hbl : 1 <= length buf) by (unfold buf; cbn [length]; lia).
+  { exists [], []. cbn [write_all_loop fst snd]. unfold wr_ok. cbn [app]. rewrite app_nil_r. repeat split; auto. }
+  cbn [write_all_loop].
+  assert (Hbl : 1 <= length (b0 :: r0)) by (cbn [length]; lia).
+  remember (b0 :: r0) as buf eqn:Ebuf. clear Ebuf b0 r0.
   unfold write_once.
   (* the size this call is willing to take *)
   destruct (sched w) as [|c rs] eqn:Es.
@@ -33,25 +34,25 @@ Proof.
         destruct n as [|n'] eqn:En; [lia|]. rewrite <- En in *.
         set (w1 := mkW (accepted w ++ firstn n buf) [] (Some (k, kind))).
         destruct (IH w1 (skipn n buf)) as [p' [s' H']].
-        { unfold w1. cbn [sched]. rewrite skipn_length. rewrite Es in Hm. cbn [length] in Hm. lia. }
+        { unfold w1. cbn [sched length]. rewrite skipn_length. try rewrite Es in Hm. cbn [length] in Hm. lia. }
         exists (firstn n buf ++ p'), s'. destruct H' as [E1 [E2 [E3 E4]]]. unfold wr_ok.
         split; [rewrite <- app_assoc, <- E1; symmetry; apply firstn_skipn|].
         split; [rewrite E2; unfold w1; cbn [accepted]; rewrite app_assoc; reflexivity|].
-        split; [rewrite E3; reflexivity|].
+        split; [rewrite E3; unfold w1; cbn [fail_at]; congruence|].
         destruct E4 as [E4|[k' [kind' [F1 [F2 F3]]]]]; [left; exact E4|]. right. exists k', kind'.
-        unfold w1 in F1. cbn [fail_at] in F1. auto.
+        unfold w1 in F1. cbn [fail_at] in F1. repeat split; [congruence | exact F2 | exact F3].
     + set (n := Nat.min (length buf) (length buf)).
       assert (Hn : 1 <= n <= length buf) by (unfold n; lia).
       destruct n as [|n'] eqn:En; [lia|]. rewrite <- En in *.
       set (w1 := mkW (accepted w ++ firstn n buf) [] None).
       destruct (IH w1 (skipn n buf)) as [p' [s' H']].
-      { unfold w1. cbn [sched]. rewrite skipn_length. rewrite Es in Hm. cbn [length] in Hm. lia. }
+      { unfold w1. cbn [sched length]. rewrite skipn_length. try rewrite Es in Hm. cbn [length] in Hm. lia. }
       exists (firstn n buf ++ p'), s'. destruct H' as [E1 [E2 [E3 E4]]]. unfold wr_ok.
       split; [rewrite <- app_assoc, <- E1; symmetry; apply firstn_skipn|].
       split; [rewrite E2; unfold w1; cbn [accepted]; rewrite app_assoc; reflexivity|].
-      split; [rewrite E3; reflexivity|].
-      destruct E4 as [E4|[k' [kind' [F1 _]]]]; [left; exact E4|]. unfold w1 in F1. cbn [fail_at] in F1. discriminate.
-  - rewrite Es in Hm. cbn [length] in Hm.
+      split; [rewrite E3; unfold w1; cbn [fail_at]; congruence|].
+      destruct E4 as [E4|[k' [kind' [F1 _]]]]; [left; exact E4|]. unfold w1 in F1. cbn [fail_at] in F1. discriminate F1.
+  - try rewrite Es in Hm. cbn [length] in Hm.
     destruct (Nat.eqb c 0) eqn:Ec.
     + (* Interrupted: retried *)
       set (w1 := mkW (accepted w) rs (fail_at w)).
@@ -68,24 +69,24 @@ Proof.
            destruct n as [|n'] eqn:En; [lia|]. rewrite <- En in *.
            set (w1 := mkW (accepted w ++ firstn n buf) rs (Some (k, kind))).
            destruct (IH w1 (skipn n buf)) as [p' [s' H']].
-           { unfold w1. cbn [sched]. rewrite skipn_length. lia. }
+           { unfold w1. cbn [sched length]. rewrite skipn_length. lia. }
            exists (firstn n buf ++ p'), s'. destruct H' as [E1 [E2 [E3 E4]]]. unfold wr_ok.
            split; [rewrite <- app_assoc, <- E1; symmetry; apply firstn_skipn|].
            split; [rewrite E2; unfold w1; cbn [accepted]; rewrite app_assoc; reflexivity|].
-           split; [rewrite E3; reflexivity|].
+           split; [rewrite E3; unfold w1; cbn [fail_at]; congruence|].
            destruct E4 as [E4|[k' [kind' [F1 [F2 F3]]]]]; [left; exact E4|]. right. exists k', kind'.
-           unfold w1 in F1. cbn [fail_at] in F1. auto.
+           unfold w1 in F1. cbn [fail_at] in F1. repeat split; [congruence | exact F2 | exact F3].
       * set (n := Nat.min c (length buf)).
         assert (Hn : 1 <= n <= length buf) by (unfold n; lia).
         destruct n as [|n'] eqn:En; [lia|]. rewrite <- En in *.
         set (w1 := mkW (accepted w ++ firstn n buf) rs None).
         destruct (IH w1 (skipn n buf)) as [p' [s' H']].
-        { unfold w1. cbn [sched]. rewrite skipn_length. lia. }
+        { unfold w1. cbn [sched length]. rewrite skipn_length. lia. }
         exists (firstn n buf ++ p'), s'. destruct H' as [E1 [E2 [E3 E4]]]. unfold wr_ok.
         split; [rewrite <- app_assoc, <- E1; symmetry; apply firstn_skipn|].
         split; [rewrite E2; unfold w1; cbn [accepted]; rewrite app_assoc; reflexivity|].
-        split; [rewrite E3; reflexivity|].
-        destruct E4 as [E4|[k' [kind' [F1 _]]]]; [left; exact E4|]. unfold w1 in F1. cbn [fail_at] in F1. discriminate.
+        split; [rewrite E3; unfold w1; cbn [fail_at]; congruence|].
+        destruct E4 as [E4|[k' [kind' [F1 _]]]]; [left; exact E4|]. unfold w1 in F1. cbn [fail_at] in F1. discriminate F1.
 Qed.
 
 Theorem write_all_spec w buf : exists p s, wr_ok w (fst (write_all w buf)) buf p s (snd (write_all w buf)).
@@ -98,7 +99,7 @@ Lemma feed_spec (bufs : list bytes) : forall w, exists p s,
       \/ (exists k kind, fail_at w = Some (k, kind) /\ snd (feed w bufs) = Err (Io kind) O /\ k <= length (accepted (fst (feed w bufs))))).
 Proof.
   induction bufs as [|b r IH]; intros w.
-  - exists [], []. cbn [feed fst snd concat]. rewrite app_nil_r. auto.
+  - exists [], []. cbn [feed fst snd concat app]. rewrite app_nil_r. repeat split; auto.
   - cbn [feed concat]. destruct (write_all_spec w b) as [p1 [s1 [E1 [E2 [E3 E4]]]]].
     destruct (write_all w b) as [w1 r1]. cbn [fst snd] in *.
     destruct E4 as [[-> ->]|[k [kind [F1 [-> F3]]]]].
